@@ -670,6 +670,32 @@ func hostile(r *ev.Run, srv *dohmem.Server) {
 		}
 		r.Eval("lit:"+l.in, "literal -> result (0 queries)")
 	}
+	// an answer whose record is owned by the ONE-label name "o.example" (a label that contains a dot), which is not the two-label
+	// name o.example that was asked for: its data belongs to an unrelated owner
+	{
+		mkRaw := func(qtype uint16, rdata []byte) []byte {
+			m := []byte{0, 0, 0x81, 0x80, 0, 1, 0, 1, 0, 0, 0, 0, 1, 'o', 7, 'e', 'x', 'a', 'm', 'p', 'l', 'e', 0, byte(qtype >> 8), byte(qtype), 0, 1}
+			m = append(m, 9, 'o', '.', 'e', 'x', 'a', 'm', 'p', 'l', 'e', 0, byte(qtype>>8), byte(qtype), 0, 1, 0, 0, 0, 60, byte(len(rdata)>>8), byte(len(rdata)))
+			return append(m, rdata...)
+		}
+		srv.Reset()
+		srv.Zone = func(name string, t uint16) dohmem.Answer {
+			switch t {
+			case 1:
+				return dohmem.Answer{Raw: mkRaw(1, ipX4)}
+			case 28:
+				return dohmem.Answer{Raw: mkRaw(28, ipX6)}
+			}
+			return dohmem.Answer{Raw: mkRaw(65, []byte{0, 1, 0, 0, 1, 0, 3, 2, 'h', '2'})}
+		}
+		res, _ := ech.NewResolver("https://doh.test/dns-query")
+		got, err := res.Resolve(context.Background(), "o.example")
+		if err == nil && (len(got.Address) > 0 || len(got.HTTPS) > 0) {
+			r.Violation("poison-used:owner-label-with-dot", fmt.Sprintf("Resolve(\"o.example\") used records owned by the single-label name \"o\\.example\": %s", resultKey(got)), "owner label containing a dot")
+		}
+		r.Eval("owner-label-with-dot", "hostile -> not used")
+		srv.Zone = z.answer
+	}
 	label := func(n int) string { return strings.Repeat("l", n) }
 	var inputs []string
 	for _, n := range []int{62, 63, 64, 65, 255, 300} {
@@ -695,6 +721,8 @@ func hostile(r *ev.Run, srv *dohmem.Server) {
 		s := strings.Repeat("s", n)
 		inputs = append(inputs, s+"://"+origin, s+"://"+origin+":123", s+"://"+origin+":443")
 	}
+	// empty labels that only appear in the COMPLETE query name (_port._scheme.host): in the scheme, or a root host with a port
+	inputs = append(inputs, ".:8443", "a..b://o.example:123", "foo.://o.example", ".foo://o.example:123", "a.b://o.example:123", "foo://.:123", "..://o.example:1")
 	inputs = append(inputs, "o.example..", "o.example..:8443", "https://o.example../x", "o.example...", ".o.example", "", ".", "..", "a..b", ":", ":443", "://", "https://", "https://:443", "o.example:99999", "o.example:0", "o.example:-1", "[::1", "o.example:443:443", "https://o.example:port/", "\x00", "o\x00.example", strings.Repeat(".", 300))
 	for _, in := range inputs {
 		srv.Reset()
